@@ -90,6 +90,33 @@ def side_dependent(t, worlds):
     return False
 
 
+def reference_value_consistency(ctx, rng, U, dr):
+    """After function pull-backs every form argument occurs as ReferenceValue(f): the wrapper must get the verdict
+    (accepted unrestricted / rejected as missing a restriction) and the side of the terminal it wraps."""
+    from ufl.classes import ReferenceValue
+
+    name = rng.choice(sorted(U.spaces))
+    f = U.coef(name, 0) if rng.random() < 0.5 else U.arg(name, rng.randrange(2))
+
+    def verdict(e):
+        try:
+            o = apply_restrictions(e, default_restrictions=dr) if dr is not None else apply_restrictions(e)
+        except Exception as ex:
+            return ("rejected", type(ex).__name__)
+        side = o.side() if type(o).__name__ in ("PositiveRestricted", "NegativeRestricted") else None
+        return ("accepted", side)
+
+    for wrap in (lambda t: t, lambda t: t("+"), lambda t: t("-")):
+        a = verdict(wrap(f))
+        b = verdict(wrap(ReferenceValue(f)))
+        ctx.count("reference_value_consistency_checks")
+        if a[0] != b[0] or (a[0] == "accepted" and a[1] != b[1]):
+            kind = type(f).__name__ + ("-H1" if f.ufl_element() in ufl.H1 else "-nonH1")
+            ctx.violation(f"C17/reference-value-verdict-differs-from-terminal/{kind}",
+                          f"apply_restrictions gives {a} for the terminal and {b} for ReferenceValue of it (default restrictions {None if dr is None else list(dr.values())})",
+                          {"terminal": str(f), "space": name})
+
+
 def case(ctx, i, rng):
     cell, gdim = rng.choice(CELLS)
     cplx = rng.random() < 0.15
@@ -133,7 +160,9 @@ def case(ctx, i, rng):
             status.append("structure")
         except Exception:
             status.append("numeric")
-    dr = {U.mesh: "+"} if mode == "default" else None
+    dr = {U.mesh: rng.choice(["+", "+", "-"])} if mode == "default" else None
+    if rng.random() < 0.12:
+        reference_value_consistency(ctx, rng, U, dr)
     try:
         out = apply_restrictions(pre, default_restrictions=dr) if dr is not None else apply_restrictions(pre)
         accepted = True
